@@ -601,7 +601,7 @@ def finish(prop, spec, tier, seed, violations, advisory, inconclusive, notes, bu
         "wall_s": round(time.time() - t_start, 2),
         "violations": len(real),
     }
-    if not replay:
+    if not replay and not os.environ.get("VERIF_NO_EVIDENCE"):
         with open(os.path.join(EVIDENCE, f"{prop}.json"), "w") as f:
             json.dump(ev, f, indent=1)
 
